@@ -7,7 +7,7 @@ import ast
 from dataclasses import dataclass
 from typing import Dict, List, Optional, Set, Tuple
 
-from .exc import resolve_exc_class
+from .exc import resolve_exc_class, resolve_exc_classes
 from .model import AnalysisError, EnumMember, FuncInfo, norm
 
 ENTRY = ["metapype.eml.validate.node", "metapype.eml.validate.tree", "metapype.eml.rule.Rule.validate_rule"]
@@ -90,6 +90,9 @@ class Pair:
     exc_cls: Optional[str]
     code: Optional[object]
     idiom: str
+    helper: bool = False  # class and/or code come from the function's own parameters (a reporting helper)
+    exc_classes: Optional[list] = None
+    via_helper: Optional[str] = None
 
 
 def report_sites(ctx, fi: FuncInfo, mp: str):
@@ -102,10 +105,16 @@ def report_sites(ctx, fi: FuncInfo, mp: str):
 
     def rule_raise(s) -> Optional[str]:
         if isinstance(s, ast.Raise) and s.exc is not None:
-            c = resolve_exc_class(prog, fi.module, s.exc)
-            if c is not None and h.issub(c, RULE_ERR):
-                return c
+            cs = resolve_exc_classes(prog, fi.module, s.exc, {p: ("class", RULE_ERR) for p in fi.params})
+            if cs and all(h.issub(c, RULE_ERR) for c in cs):
+                return cs[0] if len(cs) == 1 else "|".join(cs)
         return None
+
+    def is_helper(raise_stmt, app) -> bool:
+        names = {x.id for x in ast.walk(raise_stmt.exc.func if isinstance(raise_stmt.exc, ast.Call) else raise_stmt.exc) if isinstance(x, ast.Name)}
+        code_e = app.args[0].elts[0] if app.args and isinstance(app.args[0], ast.Tuple) and app.args[0].elts else None
+        cn = {x.id for x in ast.walk(code_e) if isinstance(x, ast.Name)} if code_e is not None else set()
+        return bool((names | cn) & set(fi.params))
 
     def append_of(s) -> Optional[ast.Call]:
         if isinstance(s, ast.Expr) and isinstance(s.value, ast.Call):
@@ -127,14 +136,14 @@ def report_sites(ctx, fi: FuncInfo, mp: str):
                     rb, ab = (s.body, s.orelse) if t else (s.orelse, s.body)
                     if len(rb) == 1 and rule_raise(rb[0]) and len(ab) == 1 and append_of(ab[0]) is not None:
                         a = append_of(ab[0])
-                        pairs.append(Pair(fi, s, rb[0], a, rule_raise(rb[0]), code_of(a), "if/else"))
+                        pairs.append(Pair(fi, s, rb[0], a, rule_raise(rb[0]), code_of(a), "if/else", helper=is_helper(rb[0], a)))
                         used.add(id(rb[0]))
                         used.add(id(a))
                         continue
                     # early raise followed by the append as the next statement
                     if t and len(rb) == 1 and rule_raise(rb[0]) and not ab and i + 1 < len(stmts) and append_of(stmts[i + 1]) is not None:
                         a = append_of(stmts[i + 1])
-                        pairs.append(Pair(fi, s, rb[0], a, rule_raise(rb[0]), code_of(a), "early-raise"))
+                        pairs.append(Pair(fi, s, rb[0], a, rule_raise(rb[0]), code_of(a), "early-raise", helper=is_helper(rb[0], a)))
                         used.add(id(rb[0]))
                         used.add(id(a))
                         continue
@@ -147,6 +156,49 @@ def report_sites(ctx, fi: FuncInfo, mp: str):
                     scan(hd.body)
 
     scan(fi.node.body)
+    # calls of reporting helpers count as pairs of the caller, with class and code bound from the actual arguments
+    busy = ctx.cache.setdefault("_report_sites_busy", set())
+    if fi.qname not in busy:
+        busy.add(fi.qname)
+        try:
+            w = ctx.world
+            ft = w.types(fi)
+            for n in ast.walk(fi.node):
+                if not isinstance(n, ast.Call):
+                    continue
+                for tg in w.resolve_call(ft, n):
+                    H = tg.func
+                    if H is None or H.qname == fi.qname:
+                        continue
+                    mph = mode_params(ctx, [H]).get(H.qname)
+                    if mph is None:
+                        continue
+                    hp, _ = report_sites(ctx, H, mph)
+                    hp = [p for p in hp if p.helper and p.func.qname == H.qname]
+                    if not hp:
+                        continue
+                    am = w.arg_map(tg, n)
+                    a_mode = am.get(mph)
+                    if not (isinstance(a_mode, ast.Name) and a_mode.id == mp):
+                        continue
+                    env = {}
+                    for pn, a in am.items():
+                        v = prog.const(fi.module, a)
+                        from .model import UNKNOWN as _U
+                        if v is not _U:
+                            env[pn] = v
+                        else:
+                            c = resolve_exc_class(prog, fi.module, a)
+                            if c is not None:
+                                env[pn] = ("class", c)
+                    for P in hp:
+                        code_e = P.append_call.args[0].elts[0]
+                        code = prog.const(H.module, code_e, local={k: v for k, v in env.items() if not (isinstance(v, tuple) and v and v[0] == "class")})
+                        cs = resolve_exc_classes(prog, H.module, P.raise_node.exc, env)
+                        pairs.append(Pair(fi, n, P.raise_node, n, cs[0] if cs and len(cs) == 1 else ("|".join(cs) if cs else None), code,
+                                          "helper call", helper=False, exc_classes=cs, via_helper=H.qname))
+        finally:
+            busy.discard(fi.qname)
     orphans = []
     for n in ast.walk(fi.node):
         if isinstance(n, ast.Raise) and id(n) not in used and rule_raise(n):
